@@ -34,18 +34,24 @@ def phase_case(recs):
     return {"stmts": stmts, "src": "phasegen"}
 
 
+def sid(case, k):
+    """Statement k's id: relabelled cases spell ids so that their sorted order is a permutation."""
+    lab = case.get("labels")
+    return "s%d" % (lab[k - 1] if lab else k)
+
+
 def real_statements(case):
     from dagrt.language import Assign, Nop
     out = []
     for k, s in enumerate(case["stmts"], 1):
-        deps = ["s%d" % d for d in s["deps"]]
+        deps = [sid(case, d) for d in s["deps"]]
         if s["nop"]:
-            out.append(Nop(id="s%d" % k, depends_on=deps))
+            out.append(Nop(id=sid(case, k), depends_on=deps))
         else:
             g = s["guard"]
             cond = True if g == ["cb", True] else exprs.from_json(g)
             loops = [(i, exprs.from_json(lo), exprs.from_json(hi)) for i, lo, hi in s["loops"]]
-            out.append(Assign(id="s%d" % k, assignee="x%d" % k,
+            out.append(Assign(id=sid(case, k), assignee="x%d" % k,
                               assignee_subscript=(exprs.from_json(["v", "i"]),) if loops else (),
                               expression=k, loops=loops, condition=cond, depends_on=deps))
     return out
@@ -69,7 +75,8 @@ def lower(stmts, container):
 def lower_case(case, perms, stmts=None, leaf_id=None):
     """Trees for the presentations of one case (or the exception class)."""
     stmts = stmts or real_statements(case)
-    leaf_id = leaf_id or (lambda st: int(st.id[1:]))
+    back = {sid(case, k): k for k in range(1, len(case["stmts"]) + 1)}
+    leaf_id = leaf_id or (lambda st: back[st.id])
     out = []
     try:
         for p in perms:
@@ -83,7 +90,8 @@ def lower_case(case, perms, stmts=None, leaf_id=None):
 
 def other_seed_trees(cases, seed):
     """Re-lower every case in a subprocess with a different PYTHONHASHSEED (frozenset presentation)."""
-    inp = tlc.write_cases([{"stmts": c["stmts"], "src": c["src"]} for c in cases], prefix="c05in_")
+    inp = tlc.write_cases([{"stmts": c["stmts"], "src": c["src"], "labels": c.get("labels")} for c in cases],
+                          prefix="c05in_")
     outp = inp + ".out"
     tlc._scratch.append(outp)
     env = dict(os.environ, PYTHONHASHSEED=str(seed), DAGRT_REPO=REPO)
@@ -110,7 +118,8 @@ def _worker_one(c):
     if c["src"] != "phasegen":
         return None
     try:
-        return trees.export(lower(real_statements(c), frozenset), lambda st: int(st.id[1:]))
+        back = {sid(c, k): k for k in range(1, len(c["stmts"]) + 1)}
+        return trees.export(lower(real_statements(c), frozenset), lambda st: back[st.id])
     except Exception as e:
         return ["X", type(e).__name__]
 
@@ -162,6 +171,21 @@ def run(chk):
     res = tlc.run_tlc("PhaseGen", cfg=cfg, timeout=1800)
     chk.add_tlc(res)
     cases = [phase_case(r) for r in res.json_lines("GEN")]
+    # one statement more over a reduced catalogue (guards true/c/not c, no loops, no-ops, every dependency
+    # set), each under two random relabellings of the ids (the lowering sorts ids)
+    cfg2 = tlc.temp_cfg("CONSTANTS\n MaxN = %d\n NGuards = 3\n NLoops = 1\n FullUpTo = %d\n"
+                        "INIT Init\nNEXT Next\nCHECK_DEADLOCK FALSE\nINVARIANT Dump\n" % (maxn + 1, maxn + 1))
+    res2 = tlc.run_tlc("PhaseGen", cfg=cfg2, timeout=1800)
+    chk.add_tlc(res2)
+    for r in res2.json_lines("GEN"):
+        if len(r) != maxn + 1:
+            continue
+        for _ in range(2):
+            c = phase_case(r)
+            lab = list(range(1, len(r) + 1))
+            rng.shuffle(lab)
+            c["labels"] = lab
+            cases.append(c)
     n_gen = len(cases)
     chk.stage("phasegen")
     jobs = [(c, presentations(len(c["stmts"]), rng, 6 if len(c["stmts"]) <= 3 else 4)) for c in cases]
